@@ -91,7 +91,7 @@ impl Tr {
     pub fn release(&mut self, keep: bool) {
         self.bulk_run += 1;
         if let Some(h) = self.held.take() {
-            if keep && !self.muted {
+            if keep && !self.muted && self.bulk_kept < 24 {
                 self.bulk_kept += 1;
                 self.cases += 1;
                 for s in h {
@@ -101,6 +101,16 @@ impl Tr {
                     self.events += 1;
                 }
             }
+        }
+    }
+    /// For exploration loops that write suspicious cases directly: at most 24 per run (a defect that
+    /// shows in hundreds of cases does not need hundreds of traces).
+    pub fn take_suspicious_slot(&mut self) -> bool {
+        if self.bulk_kept < 24 {
+            self.bulk_kept += 1;
+            true
+        } else {
+            false
         }
     }
     pub fn finish(mut self) -> Value {
